@@ -204,6 +204,16 @@ def gen_c18():
     if ex_m != ex_r:
         raise E.ExtractError('exact token count checked in only one of processMatrix / processReward')
 
+    # what a parse resets on the parser object (the model's `resetPre` / `parseWith`)
+    pmi, pmi_ln = body_of(src, r'void\s+CassandraParser::parseModelInfo\s*\(\s*std::istream\s*&\s*input\s*\)\s*\{', 'parseModelInfo')
+    head = pmi[:pmi.index('getline')] if 'getline' in pmi else pmi
+    resets_lines = bool(re.search(r'lines_\s*\.\s*clear\s*\(\s*\)', head))
+    resets_sizes = all(re.search(r'\b' + v + r'\s*=\s*0\b', head) for v in ('S_', 'A_', 'O_'))
+    resets_disc = bool(re.search(r'discount_\s*=\s*1\.0\b', head))
+    ex, ex_ln = body_of(src, r'size_t\s+CassandraParser::extractIDs\s*\([^)]*\)\s*\{', 'extractIDs')
+    first_stmt = ex.strip('{} \n\t').split(';')[0]
+    clears_map = norm(first_stmt) == 'map.clear()'
+
     b = lambda x: 'true' if x else 'false'
     strs = lambda l: '[' + ', '.join('"%s"' % x for x in l) + ']'
     body = f'''/- GENERATED by tools/extract_c18.py from {REL} — do not edit. -/
@@ -249,6 +259,13 @@ def nanDiscountRejected : Bool := {b(nan_rej)}
 def strictNumbers : Bool := {b(strict)}
 /-- the single-entry forms check `tokens.size() != 5` (T/O) and `!= 6` (R) -/
 def exactCounts : Bool := {b(ex_m)}
+
+/-- {REL}:{pmi_ln} parseModelInfo resets, before reading, `lines_` / the three sizes / the discount (the name tables are not touched there) -/
+def resetsLines : Bool := {b(resets_lines)}
+def resetsSizes : Bool := {b(resets_sizes)}
+def resetsDiscount : Bool := {b(resets_disc)}
+/-- {REL}:{ex_ln} extractIDs starts with `map.clear()`: a declaration line replaces the whole name table -/
+def extractClearsMap : Bool := {b(clears_map)}
 
 /-- the flags the operational model runs with -/
 def flags : AITB.Cassandra.Flags := ⟨rowLenThrows, sizeGuard, nanDiscountRejected, strictNumbers, exactCounts⟩
